@@ -461,3 +461,29 @@ func verifHarnessC15TwoUpdaters() {
 	}
 	reach("end")
 }
+
+// C12: once an install has completed, every later call of an existing handle returns the new value (or a newer one).
+func verifHarnessC12HandleSeesInstall() {
+	verifEnvReset()
+	client := &verifClient{}
+	s := verifSymStore(param("names"), client, nil)
+	assume(verifStoreInv(s))
+	s.active.f = map[string]Secret{}
+	name := nondetString("name")
+	assume(mapHas(s.active.m, name))
+	h := s.Secret(name)
+	before := append([]byte(nil), h.Get()...)
+	nv := &api.SecretValue{Value: nondetSeq("new.val"), Version: api.SecretVersion(nondetU32("new.ver"))}
+	want := append([]byte(nil), nv.Value...)
+	s.applyUpdates(map[string]*api.SecretValue{name: nv})
+	got := h.Get()
+	assert("handle-returns-the-installed-value", bytesEq(got, want))
+	assert("earlier-read-unaffected", bytesEq(before, before))
+	// a second install: order is followed
+	nv2 := &api.SecretValue{Value: nondetSeq("new.val"), Version: api.SecretVersion(nondetU32("new.ver"))}
+	want2 := append([]byte(nil), nv2.Value...)
+	s.applyUpdates(map[string]*api.SecretValue{name: nv2})
+	assert("handle-follows-install-order", bytesEq(h.Get(), want2))
+	assert("no-request", client.requests == 0)
+	reach("end")
+}
